@@ -31,6 +31,26 @@ macro_rules! deserialize_number {
     };
 }
 
+macro_rules! deserialize_integer {
+    ($trait_method:ident, $type:ty, $visitor_method:ident) => {
+        fn $trait_method<V>(self, visitor: V) -> Result<V::Value>
+        where
+            V: Visitor<'de>,
+        {
+            match self.0 {
+                KValue::Number(n) => match integer_from_number::<$type>(n) {
+                    Some(i) => visitor.$visitor_method(i),
+                    None => Err(Error::Message(format!(
+                        "number out of {} range {n}",
+                        stringify!($type)
+                    ))),
+                },
+                other => unsupported_error("number", &other),
+            }
+        }
+    };
+}
+
 macro_rules! try_deserialize_number {
     ($method:ident) => {
         fn $method<V>(self, visitor: V) -> Result<V::Value>
@@ -38,14 +58,29 @@ macro_rules! try_deserialize_number {
             V: Visitor<'de>,
         {
             match self.0 {
-                KValue::Number(n) => match i64::try_from(n) {
-                    Ok(i) => visitor.visit_i64(i),
-                    Err(_) => Err(Error::OutOfI64RangeNumber(n)),
+                KValue::Number(n) => match integer_from_number::<i64>(n) {
+                    Some(i) => visitor.visit_i64(i),
+                    None => Err(Error::OutOfI64RangeNumber(n)),
                 },
                 other => unsupported_error("number", &other),
             }
         }
     };
+}
+
+// Converts a number into an integer, returning None if the number isn't an integer that fits in `T`
+//
+// `T::from(KNumber)` isn't used here because it saturates integers and truncates floats.
+fn integer_from_number<T: TryFrom<i64>>(n: KNumber) -> Option<T> {
+    let i = match n {
+        KNumber::I64(i) => i,
+        // Floats are accepted when they hold an integer in the i64 range (`i64::MAX as f64` is 2^63)
+        KNumber::F64(f) if f.fract() == 0.0 && f >= i64::MIN as f64 && f < i64::MAX as f64 => {
+            f as i64
+        }
+        KNumber::F64(_) => return None,
+    };
+    T::try_from(i).ok()
 }
 
 pub struct Deserializer(KValue);
@@ -96,14 +131,14 @@ impl<'de> de::Deserializer<'de> for Deserializer {
         }
     }
 
-    deserialize_number!(deserialize_i8, i8, visit_i8);
-    deserialize_number!(deserialize_i16, i16, visit_i16);
-    deserialize_number!(deserialize_i32, i32, visit_i32);
-    deserialize_number!(deserialize_i64, i64, visit_i64);
+    deserialize_integer!(deserialize_i8, i8, visit_i8);
+    deserialize_integer!(deserialize_i16, i16, visit_i16);
+    deserialize_integer!(deserialize_i32, i32, visit_i32);
+    try_deserialize_number!(deserialize_i64);
     try_deserialize_number!(deserialize_i128);
-    deserialize_number!(deserialize_u8, u8, visit_u8);
-    deserialize_number!(deserialize_u16, u16, visit_u16);
-    deserialize_number!(deserialize_u32, u32, visit_u32);
+    deserialize_integer!(deserialize_u8, u8, visit_u8);
+    deserialize_integer!(deserialize_u16, u16, visit_u16);
+    deserialize_integer!(deserialize_u32, u32, visit_u32);
     try_deserialize_number!(deserialize_u64);
     try_deserialize_number!(deserialize_u128);
     deserialize_number!(deserialize_f32, f32, visit_f32);
@@ -330,10 +365,9 @@ fn values_to_bytes(values: &[KValue]) -> Result<Vec<u8>> {
     values
         .iter()
         .map(|value| match value {
-            #[allow(clippy::unnecessary_fallible_conversions)]
-            KValue::Number(n) => match u8::try_from(n) {
-                Ok(x) => Ok(x),
-                Err(_) => Err(Error::OutOfU8RangeNumber(*n)),
+            KValue::Number(n) => match integer_from_number::<u8>(*n) {
+                Some(x) => Ok(x),
+                None => Err(Error::OutOfU8RangeNumber(*n)),
             },
             other => unsupported_error("number", other),
         })
